@@ -148,6 +148,7 @@ def _collapse(obs, drop_pinmode=True, drop_reads=False):
             res.append(o)
         elif k == "DELAY":
             if o[2] < 1:
+                res.append((o[0], "DELAY0"))
                 continue
             res.append(o)
         elif k == "PINMODE" and drop_pinmode:
@@ -166,11 +167,23 @@ def compare(host_events, trace, *, motor_duty_tol=1, ignore_initial_servo=True):
     h = _collapse(host_obs(host_events))
     f_raw = fw_obs(trace)
     f = _collapse(f_raw)
+    # sub-millisecond delays are invisible on the device but still shift host time: count them for the time tolerance
+    def strip0(seq):
+        out, cnt = [], 0
+        for o in seq:
+            if o[1] == "DELAY0":
+                cnt += 1
+                continue
+            out.append(o + (cnt,))
+        return out
+    h, f = strip0(h), strip0(f)
     i = 0
     n = min(len(h), len(f))
     delays = 0
     while i < n:
         ho, fo = h[i], f[i]
+        zero_delays = max(ho[-1], fo[-1])
+        ho, fo = ho[:-1], fo[:-1]
         if ho[1] != fo[1]:
             return f"event {i}: host {_fmt(ho)} vs firmware {_fmt(fo)}"
         k = ho[1]
@@ -203,11 +216,11 @@ def compare(host_events, trace, *, motor_duty_tol=1, ignore_initial_servo=True):
         if not ok:
             return f"event {i}: host {_fmt(ho)} vs firmware {_fmt(fo)}"
         # timing: change points agree to within 1 ms per delay so far
-        if abs(ho[0] - fo[0]) > 1.0 * delays + 1e-6 and k != "MARK":
+        if abs(ho[0] - fo[0]) > 1.0 * (delays + zero_delays) + 1e-6 and k != "MARK":
             return f"event {i} time: host {ho[0]:.3f} ms vs firmware {fo[0]:.3f} ms after {delays} delays ({_fmt(ho)})"
         i += 1
     if len(h) != len(f):
-        extra = h[n] if len(h) > n else f[n]
+        extra = (h[n] if len(h) > n else f[n])[:-1]
         side = "host" if len(h) > n else "firmware"
         return f"event {n}: only {side} has {_fmt(extra)} (host {len(h)} events, firmware {len(f)})"
     return None
